@@ -665,6 +665,64 @@ theorem pf_weights_target_kalman (lz : ℝ)
   rw [h1 i]
   simp only [key, ← Finset.mul_sum]
   rw [mul_div_mul_left _ _ (Real.exp_pos _).ne']
+/-- **Convergence rate of the resampling stage (weak law, explicit bound).** Weights `w ≥ 0`, `Σ w = 1`, indices drawn
+independently with probabilities `w` (what `pf_resample_prob` shows a uniform draw does): the probability that coordinate `a` of
+the PF estimate (mean of the `N` resampled particles) is at least `ε` away from the weighted mean `μ = Σ w_i xs_i` is at most
+`Var_w / (N ε²) ≤ E_w[xs²] / (N ε²)` — it tends to `0` like `1/N`, for every `ε > 0` (Chebyshev on `pf_resample_mean_var`). -/
+theorem pf_resample_concentration {M N n : Nat} (w : Fin M → ℝ) (hw0 : ∀ i, 0 ≤ w i) (hw : ∑ i, w i = 1) (hN : 0 < N)
+    (xs : Fin M → Fin n → ℝ) (Q : Matrix (Fin n) (Fin n) ℝ) (a : Fin n) {ε : ℝ} (hε : 0 < ε) :
+    let μ := ∑ i, w i * xs i a
+    expectIdx (N := N) w (fun f => if ε ≤ |(pfMoments Q (fun j => xs (f j))).x a - μ| then 1 else 0)
+        ≤ (∑ i, w i * (xs i a - μ) ^ 2) / (N * ε ^ 2) ∧
+      (∑ i, w i * (xs i a - μ) ^ 2) / (N * ε ^ 2) ≤ (∑ i, w i * xs i a ^ 2) / (N * ε ^ 2) := by
+  intro μ
+  simp only [pfMoments_x]
+  refine ⟨resample_mean_chebyshev w hw0 hw hN (fun i => xs i a) hε, ?_⟩
+  have hN' : (0 : ℝ) < N := by exact_mod_cast hN
+  have h3 := (pf_resample_mean_var w hw hN xs Q a).2.2
+  rw [div_le_div_iff_of_pos_right hN'] at h3
+  exact div_le_div_of_nonneg_right h3 (by positivity)
+
+/-- **The whole PF call on a linear-Gaussian observation, in expectation over the resampling draws.** `w` are the model's own
+weights for the call (`pfWeights`), `out idx` is coordinate `a` of what the call returns when the draws select the indices `idx`
+(`pf_spec`: `pf … = pfMoments Q (f ∘ xp ∘ sel)`), `b` the Kalman measurement update of the proposal `N(xm, P⁻)` by `y`. Then
+(1) `E[out] = Σ_i ρ(xp i) f(xp i, u)_a / Σ_j ρ(xp j)` — the self-normalised importance-sampling estimate of the KALMAN-POSTERIOR
+expectation of `f(x, u)_a` (`ρ` = Kalman posterior density / proposal density, constants cancelled), exactly, for every `N`; and
+(2) `P(|out − that estimate| ≥ ε) ≤ E_w[f(x,u)_a²] / (N ε²)`. Composition of `pf_weights_target_kalman`, `pf_resample_mean_var`,
+`pf_resample_concentration`. What stays unproved is only the limit of the self-normalised estimate itself as the particles
+`xp` are drawn from a continuous proposal. -/
+theorem pf_call_mean_targets_kalman (lz : ℝ)
+    (f : (Fin n → ℝ) → (Fin m → ℝ) → Fin n → ℝ)
+    (jf : (Fin n → ℝ) → (Fin m → ℝ) → Matrix (Fin n) (Fin n) ℝ)
+    (jg : (Fin n → ℝ) → (Fin m → ℝ) → Matrix (Fin p) (Fin n) ℝ)
+    (C : Matrix (Fin p) (Fin n) ℝ) (D : Matrix (Fin p) (Fin m) ℝ) (c2 : Fin p → ℝ)
+    (u : Fin m → ℝ) (y : Fin p → ℝ) (Q : Matrix (Fin n) (Fin n) ℝ) (R : Matrix (Fin p) (Fin p) ℝ) (hR : R.PosDef)
+    (xm : Fin n → ℝ) (Pm : Matrix (Fin n) (Fin n) ℝ) (hPm : Pm.PosDef)
+    (xp : Fin N → Fin n → ℝ) (hN : 0 < N) (a : Fin n) {ε : ℝ} (hε : 0 < ε) :
+    let g : (Fin n → ℝ) → (Fin m → ℝ) → Fin p → ℝ := fun x u => C *ᵥ x + D *ᵥ u + c2
+    let w := (pfWeights (R⁻¹ : Matrix (Fin p) (Fin p) ℝ) lz ⟨⟨f, g, jf, jg⟩, u, y, Q, R⟩ xp).fn
+    let b := kfStep 1 C xm (g xm u) 0 R Pm y
+    let ρ : (Fin n → ℝ) → ℝ := fun z =>
+      Real.exp (-(1 / 2 * ((z - b.mean) ⬝ᵥ b.cov⁻¹ *ᵥ (z - b.mean)))) /
+        Real.exp (-(1 / 2 * ((z - xm) ⬝ᵥ Pm⁻¹ *ᵥ (z - xm))))
+    let est := (∑ i, ρ (xp i) * f (xp i) u a) / ∑ j, ρ (xp j)
+    let out : (Fin N → Fin N) → ℝ := fun idx => (pfMoments Q (fun j => f (xp (idx j)) u)).x a
+    expectIdx (N := N) w out = est ∧
+      expectIdx (N := N) w (fun idx => if ε ≤ |out idx - est| then 1 else 0)
+        ≤ (∑ i, w i * (f (xp i) u a) ^ 2) / (N * ε ^ 2) := by
+  intro g w b ρ est out
+  obtain ⟨-, hpos, hsum⟩ := pf_weights (R⁻¹ : Matrix (Fin p) (Fin p) ℝ) lz f g jf jg u y Q R xp hN
+  have hw := pf_weights_target_kalman lz f jf jg C D c2 u y Q R hR xm Pm hPm xp hN
+  have hest : ∑ i, w i * f (xp i) u a = est := by
+    simp only [est, Finset.sum_div]
+    refine Finset.sum_congr rfl fun i _ => ?_
+    rw [show w i = ρ (xp i) / ∑ j, ρ (xp j) from hw i]
+    ring
+  have h1 := (pf_resample_mean_var w hsum hN (fun i => f (xp i) u) Q a).1
+  have h2 := pf_resample_concentration w (fun i => (hpos i).le) hsum hN (fun i => f (xp i) u) Q a hε
+  simp only at h1 h2
+  rw [hest] at h1 h2
+  exact ⟨h1, h2.1.trans h2.2⟩
 end PF
 
 /-! ## Non-vacuity: the hypotheses are satisfiable by non-trivial values -/
@@ -756,5 +814,18 @@ example : ∃ (C : Matrix (Fin 1) (Fin 2) ℝ) (R : Matrix (Fin 1) (Fin 1) ℝ) 
     simp at this
   · exact pf_weights_target_kalman 0 (fun x _ => x) (fun _ _ => 1) (fun _ _ => !![1, 0]) !![1, 0] 0 ![0] ![0] ![2] 1 _
       (PosDef.one.smul (by norm_num)) ![1, -1] _ (PosDef.one.smul (by norm_num)) _ (by norm_num)
+
+/-- admissible data for `pf_resample_concentration` (weights `1/4, 3/4`, `ε = 1/2`, 5 draws) -/
+example : ∃ (w : Fin 2 → ℝ) (ε : ℝ), (∀ i, 0 ≤ w i) ∧ ∑ i, w i = 1 ∧ 0 < ε ∧ (0 : ℕ) < 5 :=
+  ⟨![1/4, 3/4], 1/2, by intro i; fin_cases i <;> norm_num, by simp [Fin.sum_univ_two]; norm_num, by norm_num, by norm_num⟩
+
+/-- `pf_call_mean_targets_kalman` instantiated (two states, `C = [1 0] ≠ 0`, `R = 3·1`, proposal `N((1,−1), 2·1)`, `f(x,u) = 2x`,
+three particles, `ε = 1/2`): its hypotheses are jointly satisfiable -/
+example : True := by
+  have _h := pf_call_mean_targets_kalman (N := 3) 0 (fun x (_ : Fin 1 → ℝ) => (2 : ℝ) • x) (fun _ _ => (2 : ℝ) • 1) (fun _ _ => !![1, 0])
+    !![1, 0] (0 : Matrix (Fin 1) (Fin 1) ℝ) ![0] ![0] ![2] (1 : Matrix (Fin 2) (Fin 2) ℝ) ((3 : ℝ) • 1) (PosDef.one.smul (by norm_num))
+    ![1, -1] ((2 : ℝ) • 1) (PosDef.one.smul (by norm_num)) ![![0, 0], ![1, 2], ![-1, 3]] (by norm_num) 0
+    (show (0 : ℝ) < 1 / 2 by norm_num)
+  trivial
 
 end PP.Filter
